@@ -11,7 +11,7 @@ from ..absint import Closure
 from ..facts import RULE_CLASSES
 from ..stencil import FV, taylor_signature
 from ..pipeline import Pipeline
-from ..dv import DV, tags_of
+from ..dv import DV, tags_of, NONZERO_STEPS
 from ..dvrun import explore, tensor_f, StepGenModel
 from . import formal, e2e
 
@@ -187,7 +187,7 @@ def shape_case(ctx, core, cls, n, fshape, method, reuse_buffer=False):
         f = tensor_f(s, n, fshape, reuse_buffer=reuse_buffer)
         d = C(f, step=StepGenModel(num_steps=7), method=method)
         return d(s.x_array((n,)))
-    ex = explore(ctx.repo, body, pinned={'(np.abs(step) > 0).all()': True})
+    ex = explore(ctx.repo, body, pinned=NONZERO_STEPS)
     expected = (n, n) if cls == 'Hessian' else (n,)
     key_extra = 'f->(1,)' if fshape == (1,) else 'f->()'
     if reuse_buffer:
@@ -198,7 +198,7 @@ def shape_case(ctx, core, cls, n, fshape, method, reuse_buffer=False):
             C = I.get_global('core', cls)
             d = C(tensor_f(s, n, fshape), step=StepGenModel(num_steps=7), method=method)
             return d(s.x_array((n,)))
-        ex0 = explore(ctx.repo, body_fresh, pinned={'(np.abs(step) > 0).all()': True})
+        ex0 = explore(ctx.repo, body_fresh, pinned=NONZERO_STEPS)
         fresh = {tuple((d[0], d[1]) for d in dec): r for dec, r, exc in ex0.paths if exc is None}
         diffs = []
         for dec, r, exc in ex.paths:
@@ -256,7 +256,7 @@ def int_dtype(ctx):
                 return d(s.x_array((2,), kind='i'))
             ndarr.CAST_HOOK = hook
             try:
-                ex = explore(ctx.repo, body, pinned={'(np.abs(step) > 0).all()': True})
+                ex = explore(ctx.repo, body, pinned=NONZERO_STEPS)
             finally:
                 ndarr.CAST_HOOK = None
             bad = [{'raises': exc.exc_name, 'message': exc.msg[:100]} for d, r, exc in ex.paths if exc is not None]
@@ -281,7 +281,7 @@ def kinds(ctx):
                 f = tensor_f(s, 2, (), kind='c')
                 d = C(f, method=method)
                 return d(s.x_array((2,)))
-            ex = explore(ctx.repo, body, pinned={'(np.abs(step) > 0).all()': True})
+            ex = explore(ctx.repo, body, pinned=NONZERO_STEPS)
             bad = [{'raises': exc.exc_name, 'message': exc.msg[:100]} for d, r, exc in ex.paths if exc is not None]
             rep.check(not bad, 'R-KIND', 'limits._Limit._add_error_to_outliers', ctx.repo.module('limits').relpath,
                       {'paths': len(ex.paths), 'exceptions': bad[:2]},
